@@ -88,12 +88,13 @@ def gen_spec(rng, solver, df, pen, seed, coords):
         knobs["use_acc"] = (not knobs["greedy_cd"]) and bool(rng.integers(0, 2))
     if solver == "MultiTaskBCD":
         knobs["use_acc"] = bool(rng.integers(0, 2))
-    return dict(check="C17", seed=seed, coords=coords, solver=solver, datafit=df, penalty=pen, storage=storage,
+    return K.widen(rng, dict(check="C17", seed=seed, coords=coords, solver=solver, datafit=df, penalty=pen, storage=storage,
                 fit_intercept=icpt, strategy=strategy, n=n, p=p, xkind=str(rng.choice(["gauss", "ar", "shifted"])),
                 rho=0.8, alpha_frac=float(rng.choice([0.02, 0.1, 0.5])),
                 positive=bool(rng.integers(0, 2)) if pen in K.POSFLAG + ["WeightedGroupL2"] else False,
                 knobs=knobs, group_style=str(rng.choice(["contig", "perm"])), n_tasks=int(rng.integers(1, 4)),
-                warm=str(rng.choice(["cold", "zero", "dense"])), budget_class=klass)
+                warm=str(rng.choice(["cold", "zero", "dense"])), budget_class=klass),
+                   prob=0.1, n_range=(40, 100), p_range=(60, 250))
 
 
 def run_shard(spec, emit):
@@ -223,7 +224,7 @@ def run_case(emit, cid, cs, rng, sample):
     rec = dict(base, nontrivial=bool(n_outer and n_outer >= 1),
                count=dict(history_entries=int(len(obj)), tolerance_exits=int(stop <= tol),
                           two_sided_checks=int(two_sided is not None)),
-               hist={"budget_class": cs["budget_class"], "n_outer": n_outer})
+               hist={"budget_class": cs["budget_class"], "n_outer": n_outer, "size": cs.get("size", "small")})
     if viols:
         rec.update(status="violated", viol=viols[0], viols=viols[:10],
                    obs=dict(case=case.describe(), obj=small(obj, 10), stop=stop, all=[v["detail"] for v in viols[:5]]))
